@@ -48,6 +48,12 @@ def obligations(tier):
                                  'pattern); content a function of (handle, StateVersion); ' + IDS[ids],
                           claim='no regression, stale/duplicate ignored, newer applied exactly, id change freezes the MDIB, '
                                 'indices == scan'))
+    if tier == 'thorough':
+        for a, b, c in ((0, 0, 0), (0, 0, 1), (0, 1, 0), (1, 0, 0), (1, 1, 1), (0, 1, 2), (2, 2, 2), (0, 2, 0), (1, 1, 0)):
+            obs.append(Ob(f'C06.faulty3.{KINDS[a]}.{KINDS[b]}.{KINDS[c]}', 'harness.C06', 'faulty_delivery3',
+                          bind={'kind1': a, 'kind2': b, 'kind3': c}, timeout=1500, functions=F, stubs=STUBS, twin=False,
+                          bounds='3 reports; symbolic MdibVersion x4 and StateVersion x4 in N (every order / equality pattern)',
+                          claim='same as faulty.* over three deliveries'))
     rp = [(a, b) for a in range(2) for b in range(2)] if tier == 'thorough' else [(0, 0), (0, 1)]
     for a, b, seq1, late in [(a, b, s1, lt) for a, b in rp for s1 in (False, True) for lt in (False, True)
                              if tier == 'thorough' or (s1, lt) in ((False, True), (True, False))]:
@@ -141,14 +147,18 @@ def _e3_build():
 
     class Rec(base):
         def __getattribute__(self, name):
-            v = base.__getattribute__(self, name)
             if name == '_state':
+                if rec.mode == 'replay':
+                    rec.event('read', '_state')        # gate FIRST, then read: the value must be the one at the scheduled point
+                    return base.__getattribute__(self, name)
+                v = base.__getattribute__(self, name)
                 rec.event('read', '_state=' + v.name)
-            return v
+                return v
+            return base.__getattribute__(self, name)
 
         def __setattr__(self, name, value):
             if name == '_state':
-                rec.event('write', '_state=' + value.name)
+                rec.event('write', '_state' if rec.mode == 'replay' else '_state=' + value.name)
             base.__setattr__(self, name, value)
     Rec.__name__ = base.__name__
     cm.__class__ = Rec
